@@ -11,6 +11,7 @@ import (
 	"log"
 	"runtime"
 	"sort"
+	"strings"
 	"sync"
 	"time"
 
@@ -30,6 +31,18 @@ func pid(first byte) (ret p2p.PeerID) {
 	}
 	return ret
 }
+
+// pid12 is pid with the distinguishing byte moved behind the first machine word.
+func pid12(b byte) (ret p2p.PeerID) {
+	for i := 0; i < 9; i++ {
+		ret[i] = 0x5a
+	}
+	ret[9] = b
+	ret[31] = 0x77
+	return ret
+}
+
+var universe12 []p2p.PeerID
 
 type behaviour struct {
 	fail     bool
@@ -184,6 +197,12 @@ var validValue = []byte("valid-value")
 var invalidValue = []byte("INVALID")
 
 func runOne(universe []p2p.PeerID, real int, sc scenario, ch *seqmc.Chooser) {
+	// "get12"/"put12": the same operation with a 12-byte key over the universe whose ids agree on
+	// their first eight bytes (comparisons must look past the first machine word)
+	keyLen := 32
+	if strings.HasSuffix(sc.op, "12") {
+		keyLen, sc.op, universe = 12, strings.TrimSuffix(sc.op, "12"), universe12
+	}
 	e := &env{universe: universe, real: real, ch: ch, beh: map[int]*behaviour{}, asked: map[int]int{}, respond: map[int]bool{}, accepts: map[int]bool{}, op: sc.op}
 	var initial []kademlia.NodeInfo
 	for _, i := range sc.initial {
@@ -238,7 +257,7 @@ func runOne(universe []p2p.PeerID, real int, sc scenario, ch *seqmc.Chooser) {
 					return kademlia.FindNodeRes{Nodes: e.peerList(b)}, nil
 				}})
 		case "get":
-			gres, err = kademlia.DHTGet(kademlia.DHTGetParams{Initial: initial, Key: sc.key[:],
+			gres, err = kademlia.DHTGet(kademlia.DHTGetParams{Initial: initial, Key: sc.key[:keyLen],
 				Validate: func(v []byte) bool { return bytes.Equal(v, validValue) },
 				Ask: func(n kademlia.NodeInfo, req kademlia.GetReq) (kademlia.GetRes, error) {
 					b, err := e.ask(e.idx(n.ID))
@@ -255,7 +274,7 @@ func runOne(universe []p2p.PeerID, real int, sc scenario, ch *seqmc.Chooser) {
 					return res, nil
 				}})
 		case "put":
-			pres, err = kademlia.DHTPut(kademlia.DHTPutParams{Initial: initial, Key: sc.key[:], Value: []byte("v"), MinAccepted: sc.minAcc,
+			pres, err = kademlia.DHTPut(kademlia.DHTPutParams{Initial: initial, Key: sc.key[:keyLen], Value: []byte("v"), MinAccepted: sc.minAcc,
 				Ask: func(n kademlia.NodeInfo, req kademlia.PutReq) (kademlia.PutRes, error) {
 					b, err := e.ask(e.idx(n.ID))
 					if err != nil {
@@ -277,7 +296,7 @@ func runOne(universe []p2p.PeerID, real int, sc scenario, ch *seqmc.Chooser) {
 		}
 	}
 	distinctAsked := len(e.asked)
-	key := sc.key[:]
+	key := sc.key[:keyLen]
 	nearestOf := func(set map[int]bool) (best int) {
 		best = -1
 		for i := range set {
@@ -446,6 +465,23 @@ func main() {
 	}
 	// initial sets that contain the fabricated id / duplicates
 	scs = append(scs, scenario{"find", []int{real}, keys[0], 0}, scenario{"put", []int{real, 0}, keys[0], 1}, scenario{"get", []int{0, 0, 1}, keys[0], 0}, scenario{"join", []int{0, 0}, keys[0], 0})
+	for _, f := range firsts {
+		universe12 = append(universe12, pid12(f))
+	}
+	universe12 = append(universe12, p2p.PeerID{})
+	for _, op := range []string{"get12", "put12"} {
+		for mask := 1; mask < 1<<real; mask++ {
+			var initial []int
+			for i := 0; i < real; i++ {
+				if mask&(1<<i) != 0 {
+					initial = append(initial, i)
+				}
+			}
+			for _, k := range []p2p.PeerID{pid12(0x03), pid12(0x81), universe12[1]} {
+				scs = append(scs, scenario{op, initial, k, 0})
+			}
+		}
+	}
 	longHistories()
 	hugeRepeat = evid.Pick(run, 64, 1000)
 	limit := evid.Pick(run, 400_000, 1_000_000)
